@@ -457,14 +457,26 @@ func fmInfeasible(rows []row, atoms []*Atom) bool {
 		bestCost := int64(math.MaxInt64)
 		for a := range remaining {
 			var p, n int64
+			nonUnit := false
 			for _, r := range rows {
 				if k := r.t[a]; k > 0 {
 					p++
+					if k > 1 {
+						nonUnit = true
+					}
 				} else if k < 0 {
 					n++
+					if k < -1 {
+						nonUnit = true
+					}
 				}
 			}
 			cost := p*n - p - n
+			if nonUnit {
+				// eliminate unit-coefficient atoms first: rows left over atoms with larger coefficients
+				// can then be tightened to integers (parity / divisibility arguments)
+				cost += 1 << 20
+			}
 			if cost < bestCost || (cost == bestCost && best != nil && a.ID < best.ID) {
 				best, bestCost = a, cost
 			}
